@@ -181,6 +181,13 @@ class _NodeMixin:
 
 class _JobMixin(_NodeMixin):
 
+    def is_critical(self):
+        # a user-defined job class may compute its criticality itself and
+        # leave the constructor's flag alone: is_critical() is the accessor
+        if self.spec.get('crit_method'):
+            return self.spec['critical']
+        return super().is_critical()
+
     async def _body(self):
         ctx, nid, spec = self.ctx, self.nid, self.spec
         ctx.log('enter', nid)
@@ -315,6 +322,11 @@ class SimScheduler(_SchedMixin, Scheduler):
         self._sim_init(ctx, spec)
         Scheduler.__init__(self, *members, label=spec.get('label', self.nid),
                            **kwds)
+
+    def is_critical(self):
+        if self.spec.get('crit_method'):
+            return self.spec['critical']
+        return Scheduler.is_critical(self)
 
     async def co_run(self):
         return await self._logged_run(Scheduler.co_run(self))
